@@ -17,9 +17,26 @@ EAGER = ("any", "all", "find", "position", "for_each", "fold", "try_for_each", "
 
 
 def run(F, rep, rule):
-    gnd = F.fn("compiler::ast::get_net_dependencies")
-    if gnd is None:
+    gnd0 = F.fn("compiler::ast::get_net_dependencies")
+    if gnd0 is None:
         raise AnchorMissing("compiler::ast::get_net_dependencies")
+    # every walk that both filters dependencies against supplies and raises their capture depth: get_net_dependencies and, since the blocks
+    # supply in statement order, Block's in-order walk (found by what it calls, not by name)
+    walkers = []
+    for g in F.crates["compiler"].fns:
+        if g.kind == "Closure":
+            continue
+        bs = [g] + F.closures_of(g)
+        if any(b.calls_to("compiler::ast::Dependency::increment_cycle") for b in bs) and any(b.calls_to("compiler::ast::Dependency::eq_allow_callbacks") for b in bs):
+            walkers.append(g)
+    if gnd0 not in walkers:
+        walkers.append(gnd0)
+    rep.floor(rule + " walks that filter and raise", len(walkers), 2)
+    for g in sorted(walkers, key=lambda x: x.path):
+        _run_one(F, rep, rule, g)
+
+
+def _run_one(F, rep, rule, gnd):
     INC = "compiler::ast::Dependency::increment_cycle"
     CMP = "compiler::ast::Dependency::eq_allow_callbacks"
     bodies = [gnd] + F.closures_of(gnd)
@@ -48,11 +65,12 @@ def run(F, rep, rule):
         return out
     incs = sites(INC)
     cmps = sites(CMP)
-    rep.floor(rule + " increment_cycle / eq_allow_callbacks sites in get_net_dependencies", min(len(incs), len(cmps)), 1)
+    if gnd.path.endswith("::get_net_dependencies"):
+        rep.floor(rule + " increment_cycle / eq_allow_callbacks sites in get_net_dependencies", min(len(incs), len(cmps)), 1)
     if not incs or not cmps:
         return
     # the per-dependency loop head: Iterator::next on the by-value iterator over dependencies()
-    deps = gnd.calls_to("compiler::ast::Dependencies::dependencies")
+    deps = gnd.calls_to("compiler::ast::Dependencies::dependencies") + gnd.calls_to("compiler::ast::Dependencies::net_dependencies")
     der = gnd.derived([c.dst["l"] for c in deps], through_call=lambda c, idx: True if 0 in idx else None)
     heads = {c.bb for c in gnd.calls() if c.matches("core::iter::traits::iterator::Iterator::next") and op_local(c.args[0]) in der}
     verdict = "ok"
@@ -90,8 +108,9 @@ def run(F, rep, rule):
                 else:
                     verdict = "undecided" if verdict == "ok" else verdict
                     detail.append("mixed lazy/eager form")
-    rep.ob(rule, "get_net_dependencies raises a dependency's capture depth only after comparing it with the block's supplies", verdict,
-           "; ".join(sorted(set(detail))), gnd.span, fn=gnd.path, key=rule + "|get_net_dependencies")
+    nm = mir.short(gnd.path)
+    rep.ob(rule, "%s raises a dependency's capture depth only after comparing it with the block's supplies" % nm, verdict,
+           "; ".join(sorted(set(detail))), gnd.span, fn=gnd.path, key=rule + "|" + nm.split("::")[-1])
 
 
 
